@@ -38,7 +38,8 @@ def bound(tier):
     return dict(dev_archs=ARCHS_Q if tier == "quick" else {k: ARCHS_Q[k] + ARCHS_T[k] for k in ARCHS_Q},
                 pattern_only_archs=ARCHS_PAT if tier == "quick" else ARCHS_T_PAT,
                 singles="all 2^n * 3^n (outcome, basis) pairs", batches="ordered selections of <=3 rows from a 4-row pool, all splits; every (ordered, n<=2) pair of distinct basis strings as a 2-row batch; all 3^n strings in one batch (several row orders)",
-                datasets="multisets of <= 3 pool rows", deviation_values="{-7,0,7} (+-30 for positive)")
+                datasets="multisets of <= 3 pool rows", deviation_values="{-7,0,7} (+-30 for positive)",
+                fit_phase="complex+mixed, whole dataset as one batch: (N=3, 3 epochs, <=1 deviation), (N=2, 2 epochs, all tapes)" + ("" if tier == "quick" else ", (N=3, 3 epochs, <=2 deviations), (N=4, 2 epochs, <=1)"))
 
 
 def plan(tier, seed):
